@@ -22,11 +22,15 @@ type provCtx struct {
 	depth int
 	// conv: functions whose results are opaque "converted value" leaves
 	leaf func(fn *ssa.Function) (string, bool)
+	// noInline: module calls are rendered as name(args) instead of being expanded
+	noInline bool
+	// calls records the full names of the functions applied while rendering
+	calls map[string]bool
 	seen map[ssa.Value]bool
 }
 
 func (c *provCtx) child(env map[*ssa.Parameter]string) *provCtx {
-	return &provCtx{p: c.p, env: env, depth: c.depth + 1, leaf: c.leaf, seen: map[ssa.Value]bool{}}
+	return &provCtx{p: c.p, env: env, depth: c.depth + 1, leaf: c.leaf, noInline: c.noInline, calls: c.calls, seen: map[ssa.Value]bool{}}
 }
 
 func alts(ss []string) string {
@@ -143,6 +147,9 @@ func (c *provCtx) val(v ssa.Value) string {
 				}
 			}
 		}
+		if l == "i" && x.Op == token.ADD && r == "k:1" {
+			return "i" // the incremented range counter
+		}
 		return fmt.Sprintf("(%s %s %s)", l, x.Op, r)
 	case *ssa.UnOp:
 		if x.Op == token.MUL {
@@ -155,10 +162,21 @@ func (c *provCtx) val(v ssa.Value) string {
 		if call, ok := x.Tuple.(*ssa.Call); ok {
 			return c.call(call, x.Index)
 		}
+		if ta, ok := x.Tuple.(*ssa.TypeAssert); ok && x.Index == 0 {
+			return c.val(ta.X) + ".(" + types.TypeString(ta.AssertedType, relQual) + ")"
+		}
 		return "?extract"
 	case *ssa.Call:
 		return c.call(x, 0)
 	case *ssa.Phi:
+		// loop counter: phi(k, phi + 1)
+		for _, e := range x.Edges {
+			if bo, ok := e.(*ssa.BinOp); ok && bo.Op == token.ADD && bo.X == ssa.Value(x) {
+				if k, ok := bo.Y.(*ssa.Const); ok && k.Value != nil && k.Value.ExactString() == "1" {
+					return "i"
+				}
+			}
+		}
 		var as []string
 		for i, e := range x.Edges {
 			if isZeroSSA(e) {
@@ -192,6 +210,8 @@ func (c *provCtx) val(v ssa.Value) string {
 		return fmt.Sprintf("%s[%s]", c.val(x.X), strings.TrimPrefix(c.val(x.Index), "k:"))
 	case *ssa.IndexAddr, *ssa.FieldAddr:
 		return "&" + c.load(x)
+	case *ssa.TypeAssert:
+		return c.val(x.X) + ".(" + types.TypeString(x.AssertedType, relQual) + ")"
 	}
 	return fmt.Sprintf("?%T", v)
 }
@@ -270,6 +290,16 @@ func (c *provCtx) load(addr ssa.Value) string {
 		for _, ref := range *a.Referrers() {
 			if s, ok := ref.(*ssa.Store); ok && s.Addr == a && !isZeroSSA(s.Val) {
 				as = append(as, c.val(s.Val))
+			}
+			// copy(local[:], src)
+			if sl, ok := ref.(*ssa.Slice); ok && sl.X == a {
+				for _, r2 := range *sl.Referrers() {
+					if call, ok := r2.(*ssa.Call); ok {
+						if b, ok := call.Call.Value.(*ssa.Builtin); ok && b.Name() == "copy" && call.Call.Args[0] == sl {
+							as = append(as, c.val(call.Call.Args[1]))
+						}
+					}
+				}
 			}
 		}
 		if len(as) > 0 {
@@ -353,9 +383,25 @@ func (c *provCtx) call(call *ssa.Call, idx int) string {
 	fn := staticCallee(cc)
 	if fn == nil {
 		if cc.IsInvoke() {
-			return fmt.Sprintf("invoke:%s(%s)", cc.Method.Name(), c.val(cc.Value))
+			var as []string
+			for _, a := range cc.Args {
+				as = append(as, c.val(a))
+			}
+			s := fmt.Sprintf("%s.%s(%s)", c.val(cc.Value), cc.Method.Name(), strings.Join(as, ", "))
+			if idx > 0 {
+				s += fmt.Sprintf("#%d", idx)
+			}
+			return s
 		}
-		return "?dynamic-call"
+		var as []string
+		for _, a := range cc.Args {
+			as = append(as, c.val(a))
+		}
+		s := fmt.Sprintf("%s(%s)", c.val(cc.Value), strings.Join(as, ", "))
+		if idx > 0 {
+			s += fmt.Sprintf("#%d", idx)
+		}
+		return s
 	}
 	if c.leaf != nil {
 		if s, ok := c.leaf(fn); ok {
@@ -366,6 +412,9 @@ func (c *provCtx) call(call *ssa.Call, idx int) string {
 		}
 	}
 	full := fn.String()
+	if c.calls != nil {
+		c.calls[full] = true
+	}
 	var args []string
 	arg := func(i int) string {
 		if i < len(cc.Args) {
@@ -388,37 +437,9 @@ func (c *provCtx) call(call *ssa.Call, idx int) string {
 		return arg(0)
 	}
 	if fn.Pkg != nil && shortPkg(fn.Pkg.Pkg) == "primitive" && isModulePkg(fn.Pkg.Pkg) && strings.HasPrefix(fn.Name(), "Read") && len(cc.Args) == 1 {
-		// sequence number among the reads of the same reader
-		k := 1
-		base := cc.Args[0]
-		if mi, ok := base.(*ssa.MakeInterface); ok {
-			base = mi.X
-		}
-		var others []*ssa.Call
-		if refs := base.Referrers(); refs != nil {
-			for _, ref := range *refs {
-				switch x := ref.(type) {
-				case *ssa.Call:
-					others = append(others, x)
-				case *ssa.MakeInterface:
-					for _, r2 := range *x.Referrers() {
-						if oc, ok := r2.(*ssa.Call); ok {
-							others = append(others, oc)
-						}
-					}
-				}
-			}
-		}
-		for _, other := range others {
-			if other == call {
-				continue
-			}
-			if f2 := staticCallee(&other.Call); f2 != nil && f2.Pkg == fn.Pkg && strings.HasPrefix(f2.Name(), "Read") {
-				if other.Block() == call.Block() && instrIndex(other) < instrIndex(call) || other.Block() != call.Block() && other.Block().Dominates(call.Block()) {
-					k++
-				}
-			}
-		}
+		// sequence number among the reads of the same reader, counted from the enclosing loop
+		// header (or the entry) along the acyclic paths; all paths must agree
+		k := readSeq(call, fn.Pkg)
 		s := fmt.Sprintf("%s@%d(%s)", strings.ToLower(strings.TrimPrefix(fn.Name(), "Read")), k, arg(0))
 		if idx > 0 {
 			s += fmt.Sprintf("#%d", idx)
@@ -428,7 +449,7 @@ func (c *provCtx) call(call *ssa.Call, idx int) string {
 	if fn.Pkg != nil && shortPkg(fn.Pkg.Pkg) == "datacodec" && fn.Name() == "readBigInt" {
 		return "varint⁻¹(" + arg(0) + ")"
 	}
-	if fn.Pkg != nil && isModulePkg(fn.Pkg.Pkg) && fn.Blocks != nil && shortPkg(fn.Pkg.Pkg) == "datacodec" {
+	if !c.noInline && fn.Pkg != nil && isModulePkg(fn.Pkg.Pkg) && fn.Blocks != nil && shortPkg(fn.Pkg.Pkg) == "datacodec" {
 		// inline: provenance of the idx-th result over all returns
 		env := map[*ssa.Parameter]string{}
 		for i, p := range fn.Params {
@@ -707,4 +728,72 @@ func (c *provCtx) guardOf(b *ssa.BasicBlock) string {
 	}
 	sort.Strings(conds)
 	return "{" + strings.Join(conds, ",") + "}"
+}
+
+func isPrimRead(ins ssa.Instruction, pkg *ssa.Package) bool {
+	c, ok := ins.(*ssa.Call)
+	if !ok {
+		return false
+	}
+	f := staticCallee(&c.Call)
+	return f != nil && f.Pkg == pkg && strings.HasPrefix(f.Name(), "Read")
+}
+
+// readSeq: 1 + the number of primitive.Read* calls executed before call since the innermost loop
+// header; 0 when paths disagree.
+func readSeq(call *ssa.Call, pkg *ssa.Package) int {
+	fn := call.Parent()
+	in := map[*ssa.BasicBlock]int{}
+	done := map[*ssa.BasicBlock]bool{}
+	var count func(b *ssa.BasicBlock) int
+	count = func(b *ssa.BasicBlock) int {
+		if done[b] {
+			return in[b]
+		}
+		done[b] = true
+		in[b] = 0
+		res, first := 0, true
+		for _, p := range b.Preds {
+			if b.Dominates(p) {
+				// back edge: b is a loop header, counting restarts
+				in[b] = 0
+				return 0
+			}
+		}
+		for _, p := range b.Preds {
+			n := count(p)
+			if n < 0 {
+				in[b] = -1
+				return -1
+			}
+			for _, ins := range p.Instrs {
+				if isPrimRead(ins, pkg) {
+					n++
+				}
+			}
+			if first {
+				res, first = n, false
+			} else if n != res {
+				// paths through error exits do not rejoin; a disagreement is a real ambiguity
+				in[b] = -1
+				return -1
+			}
+		}
+		in[b] = res
+		return res
+	}
+	_ = fn
+	n := count(call.Block())
+	if n < 0 {
+		return 0
+	}
+	for _, ins := range call.Block().Instrs {
+		if ins == ssa.Instruction(call) {
+			break
+		}
+		if isPrimRead(ins, pkg) {
+			n++
+		}
+	}
+	return n + 1
 }
